@@ -17,6 +17,8 @@ const (
 	maxInt = 1 << 53
 
 	tryPanicMarker = -2
+	// finallyPos of the tryPanicMarker frame pushed on entry to a generator or async function activation
+	tryGeneratorMarker = -2
 )
 
 type valueStack []Value
@@ -824,6 +826,14 @@ func (vm *vm) handleThrow(arg interface{}) *Exception {
 		_ = vm.restoreStacks(tf.iterLen, tf.refLen)
 
 		if tf.catchPos == tryPanicMarker {
+			if ex == nil && tf.finallyPos == tryGeneratorMarker {
+				// An uncatchable exception is passing through a generator or async function activation.
+				// The frames pushed on entry to it are not popped by deferred code, so remove them here
+				// and keep unwinding to the marker that belongs to the next Go-level recover().
+				vm.popTryFrame()
+				vm.popCtx()
+				continue
+			}
 			break
 		}
 
